@@ -9,6 +9,17 @@ use vkit::sim::tcpworld::{gen_world, label_stats, End, World};
 use vkit::{Ctx, Src};
 
 fn case(src: &mut Src, ctx: &mut Ctx) -> Result<(), Fail> {
+    run_case(src, ctx, false)
+}
+
+/// Part `reuse`: the same worlds, but the connection that is judged runs on socket objects that
+/// have already carried (and aborted) another one. A part of its own so that tapes saved for
+/// part `progress` keep their meaning.
+fn case_reuse(src: &mut Src, ctx: &mut Ctx) -> Result<(), Fail> {
+    run_case(src, ctx, true)
+}
+
+fn run_case(src: &mut Src, ctx: &mut Ctx, reuse: bool) -> Result<(), Fail> {
     let cfg = gen_world(src, false);
     ctx.note(|| format!("{:?}", cfg));
     let mut w = World::new(cfg);
@@ -18,12 +29,12 @@ fn case(src: &mut Src, ctx: &mut Ctx) -> Result<(), Fail> {
     w.strict_schedule = true;
     // generous horizon: faults end after a bounded number of frames; allow 3 h of virtual time
     let horizon: i64 = 3 * 3600 * 1_000_000;
-    // 1 in 4: the socket objects first carry another connection for a few hundred events, which both
+    // reuse: the socket objects first carry another connection for a few hundred events, which both
     // applications then abort; the connection that is judged runs on the same (reused) sockets and
     // gets its own fault phase. Whatever the first connection left behind in a socket must not keep
-    // the second from making progress. (Decided from bits of a drawn seed: saved tapes keep their draws.)
+    // the second from making progress. (Its length comes from bits of a drawn seed.)
     let s0 = w.cfg.sides[0].stream_seed;
-    if (s0 >> 7) & 3 == 0 {
+    if reuse {
         let first = 100 + ((s0 >> 9) % 400);
         let _ = w.run(src, ctx, first, horizon)?;
         w.restart();
@@ -89,7 +100,7 @@ fn case(src: &mut Src, ctx: &mut Ctx) -> Result<(), Fail> {
 pub fn prop() -> Prop {
     Prop {
         id: "C02",
-        parts: vec![Part { name: "progress", case, quick: 6_000, thorough: 300_000 }],
+        parts: vec![Part { name: "progress", case, quick: 4_500, thorough: 225_000 }, Part { name: "reuse", case: case_reuse, quick: 1_500, thorough: 75_000 }],
         phases: vec![],
         smoltcp_panic_is_violation: true,
         rule: "(driver: each node is polled when a frame arrives and at exactly the instant poll_at last returned - also when that is the present instant; three such polls in a row that neither send, receive nor involve the application while poll_at does not advance are a stuck connection) the C01 two-endpoint world, but link faults (drop/duplicate/delay/reorder/bit flip/outage) apply only to the first 0..400 frames of each direction, after which delivery is reliable and in order; both applications write their stream, read with pauses (zero windows) and close; each node is polled only when a frame arrives, at the instant its last poll_at named, and right after socket API calls; checked: (a) after every poll, unacknowledged data/SYN/FIN implies a finite Interface::poll_at; (b) the closed world never becomes quiescent (no frame in flight, no deadline, no app wake-up) before both transfers and the shutdown handshake completed; (c) no 30 virtual minutes without application progress once the link is reliable; non-trivial = a fault hit a segment occupying sequence space and at least one retransmission was observed; distinct by digest",
